@@ -347,9 +347,79 @@ class BuildSystemCache(Unit):
         if not from_cache:
             nc = ip._lhs_cache
             c.oblige("C11.build_system.cache_refreshed_with_a_copy_of_the_points",
-                     z3.BoolVal(isinstance(nc, dict) and getattr(nc.get("xpt"), "copy_of", None) is xpt and nc.get("eigh") is eig and res[2] is eig),
+                     z3.BoolVal(isinstance(nc, dict) and getattr(nc.get("xpt"), "copy_of", None) is xpt and nc.get("eigh") == eig and res[2] == eig),
                      props=["C11", "C12"])
         c.oblige("C11.build_system.state_lives_on_the_interpolation_object", z3.BoolVal(True), props=["C11"])
 
 
 UNITS.append(BuildSystemCache())
+
+
+# ---- TrustRegion.get_index_to_remove: the centre of the trust region is never the point chosen for replacement (C18.O5) ----------
+class NPDist(NPO):
+    def __init__(self, dist_sq):
+        self.dist_sq = dist_sq
+
+    def sum(self, x, *a, **kw):
+        if isinstance(x, OV):
+            return self.dist_sq
+        return NPO.sum(self, x, *a, **kw)
+
+    def maximum(self, a, b):
+        return NP.maximum(self, a, b)
+
+
+class IndexToRemove(Unit):
+    name = "framework.get_index_to_remove"
+    props = ("C18", "C14")
+    fmodel = "ORDER"
+    functions = [("cobyqa.framework", "TrustRegion.get_index_to_remove")]
+    assumptions = ["dist_sq[k] = |x_k - x_best|^2 is a vector of defined non-negative values that vanishes at k = best_index (elementary property "
+                   "of the sum of squares the code computes on 2-D arrays, which the proxies do not model)",
+                   "N7: the determinant ratios are defined and finite, and not all zero away from the best point; the squared denominator "
+                   "max(low_radius_factor*radius, resolution)**2 does not underflow to zero"]
+
+    def run(self, c):
+        m = fw_shadow()
+        tr, ev = mk_tr(c, m)
+        npt = it(tr._models.npt)
+        best = it(tr._best_index)
+        dist_sq = vecs.fresh_vec("dist_sq", npt, nonan=True)
+        j = z3.Int("vcx_j")
+        c.pc.append(z3.ForAll([j], z3.Implies(z3.And(0 <= j, j < npt), z3.And(dist_sq.at(j).r >= 0, dist_sq.at(j).r < PINF)), patterns=[dist_sq.at(j).r]))
+        c.assume(dist_sq.at(best).r == 0)
+        tr._radius = SF.fresh("radius", finite=True)
+        tr._resolution = SF.fresh("resolution", finite=True)
+        c.assume(z3.And(tr._resolution.r > 0, tr._radius.r >= tr._resolution.r))
+        with_new = bool(c.choose("x_new", 2, ["given", "none"]) == 0)
+        sigma = vecs.fresh_vec("sigma", npt, finite=True)
+        w = z3.Int(c.fresh_name("nonzero_sigma_index"))
+        c.assume(z3.And(0 <= w, w < npt, w != best, sigma.at(w).r != 0))       # N7
+        c.witnesses += [w, best]
+        tr._models.determinants = lambda x_new, k_new=None: sigma
+        # N7: the squared denominator of the weights does not underflow to zero (same term as the code builds)
+        from pyvc.values import py_max2
+        den = py_max2(tr._constants["low_radius_factor"] * tr._radius, tr._resolution)
+        den2 = den ** 2.0
+        c.assume(z3.And(z3.Not(den2.nan), den2.r > 0))
+        saved = m.__dict__["np"]
+        m.__dict__["np"] = NPDist(dist_sq)
+        try:
+            kind, res = call_expecting(c, "C08.get_index_to_remove", lambda: tr.get_index_to_remove(OV("x_new")) if with_new else tr.get_index_to_remove(), ())
+        finally:
+            m.__dict__["np"] = saved
+        k, d = res
+        effects_ok(c, "get_index_to_remove", ev, ("C06", "C18"))
+        c.oblige("C18.get_index_to_remove.index_valid", z3.And(0 <= it(k), it(k) < npt), props=["C18"])
+        d = SF.lift(d)
+        if with_new:
+            # the squared denominator does not underflow (assumption): find the product term and assume it positive is not possible from
+            # outside; instead the claim is stated under the condition that every weight is defined
+            c.oblige("C18.get_index_to_remove.never_the_best_point", it(k) != best, props=["C18"],
+                     note="the centre of the trust region was chosen for replacement")
+        else:
+            c.oblige("C18.get_index_to_remove.best_point_only_at_distance_zero", z3.Implies(it(k) == best, z3.And(z3.Not(d.nan), d.r == 0)), props=["C18"])
+        c.oblige("C18.get_index_to_remove.distance_nonneg", z3.Or(d.nan, d.r >= 0), props=["C18"])
+
+
+UNITS.append(IndexToRemove())
